@@ -11,13 +11,16 @@ Pairs  == [a : Arch, p : StdPrios]
 \* 3 paths x 2 priorities, and a menu of longer ones with
 \* ties in both orders, a duplicate and a missing file
 Pairs2 == [a : {"A1", "A2", "AX"}, p : {0, 5}]
-Lists  == {<<>>} \cup {<<x>> : x \in Pairs} \cup {<<x, y>> : x, y \in Pairs2}
-          \cup { <<[a |-> "A1", p |-> 0], [a |-> "A2", p |-> 5], [a |-> "A3", p |-> 0]>>,
-                 <<[a |-> "A3", p |-> 0], [a |-> "A2", p |-> 0], [a |-> "A1", p |-> 0], [a |-> "A4", p |-> 0]>>,
-                 <<[a |-> "A4", p |-> -1], [a |-> "A1", p |-> 5], [a |-> "A4", p |-> -1], [a |-> "A2", p |-> 5]>>,
-                 <<[a |-> "A1", p |-> 0], [a |-> "AX", p |-> 5], [a |-> "A3", p |-> 0]>> }
+Pairs3 == [a : {"A1", "A2"}, p : {0, 5}]
+Menu   == { <<[a |-> "A1", p |-> 0], [a |-> "A2", p |-> 5], [a |-> "A3", p |-> 0]>>,
+            <<[a |-> "A3", p |-> 0], [a |-> "A2", p |-> 0], [a |-> "A1", p |-> 0], [a |-> "A4", p |-> 0]>>,
+            <<[a |-> "A4", p |-> -1], [a |-> "A1", p |-> 5], [a |-> "A4", p |-> -1], [a |-> "A2", p |-> 5]>>,
+            <<[a |-> "A1", p |-> 0], [a |-> "AX", p |-> 5], [a |-> "A3", p |-> 0]>> }
+Lists  == IF MaxLen <= 3
+          THEN {<<>>} \cup {<<x>> : x \in Pairs2} \cup {<<x, y>> : x, y \in Pairs3} \cup Menu
+          ELSE {<<>>, <<[a |-> "AX", p |-> 0]>>} \cup {<<x>> : x \in Pairs3} \cup Menu
 
-Init == vcont = StdWorld /\ vchain = <<>> /\ vmap = [n \in NamesOf(StdWorld) |-> 0]
+Init == vchain = <<>> /\ vmap = [n \in NamesOf(StdWorld) |-> 0]
 
 DoNew          == New
 DoAdd          == \E a \in StdArchives, p \in StdPrios : AddArchive(a, p)
@@ -27,8 +30,9 @@ DoRemoveAbsent == \E a \in Arch : RemoveAbsent(a)
 DoSet          == \E a \in StdArchives, p \in StdPrios : SetPriority(a, p)
 DoSetFail      == \E a \in Arch : SetPriorityFail(a)
 DoClear        == Clear
-DoFromPar      == \E l \in Lists : FromParallel(l)
-DoFromParFail  == \E l \in Lists : FromParallelFail(l)
+\* the constructor does not look at the current chain: exploring it from the empty chain loses nothing
+DoFromPar      == vchain = <<>> /\ \E l \in Lists : FromParallel(l)
+DoFromParFail  == vchain = <<>> /\ \E l \in Lists : FromParallelFail(l)
 DoAddPar       == \E l \in Lists : AddParallel(l)
 DoAddParFail   == \E l \in Lists : AddParallelFail(l)
 Next == \/ DoNew \/ DoAdd \/ DoAddFail \/ DoRemove \/ DoRemoveAbsent \/ DoSet \/ DoSetFail \/ DoClear
@@ -36,8 +40,9 @@ Next == \/ DoNew \/ DoAdd \/ DoAddFail \/ DoRemove \/ DoRemoveAbsent \/ DoSet \/
 
 Bound == Len(vchain) <= MaxLen
 
-\* sequential and parallel construction agree: all lists of <= 3 (archive, priority) pairs + the menu
-Lists3 == Lists \cup {<<x, y, z>> : x, y, z \in [a : StdArchives, p : StdPrios]}
+\* sequential and parallel construction agree: all 2-lists, the 3-lists over 3 archives x {0,5}, the menu
+Lists3 == Lists \cup {<<x, y>> : x, y \in [a : StdArchives, p : StdPrios]}
+          \cup {<<x, y, z>> : x, y, z \in [a : {"A1", "A2", "A3"}, p : {0, 5}]}
 ASSUME ParAgree == \A l \in Lists3 : AllExist(StdWorld, l) => ParallelAgrees(StdWorld, l)
 \* the deviation of SetPriority is real: re-prioritising to the *same* priority can change the winner
 ASSUME SetPrioDeviates ==
